@@ -50,25 +50,27 @@ func genCfg(r *lib.RNG) *Cfg {
 // world is what the script generator knows: it watches the node like the other validators would
 // (its broadcasts) and additionally which timers the node armed.
 type world struct {
-	cfg    *Cfg
-	ep     *epoch
-	r      *lib.RNG
-	cursor int
-	h      uint64
-	round  int
-	prop   map[[2]int]uint64 // (h, r) -> value proposed / going to be proposed
-	sentP  map[[2]int]bool   // (h, r) proposal already handed to the node (or its own)
-	sentV  map[[3]int]bool   // (h, r, sender) prevote sent
-	sentC  map[[3]int]bool
-	timers []Input
-	plan   []Input
-	planAt [2]int
-	hist   []Input
-	fresh  uint64
+	cfg       *Cfg
+	ep        *epoch
+	r         *lib.RNG
+	cursor    int
+	h         uint64
+	round     int
+	prop      map[[2]int]uint64 // (h, r) -> value proposed / going to be proposed
+	sentP     map[[2]int]bool   // (h, r) proposal already handed to the node (or its own)
+	early     map[[2]int]bool   // (h, r) that proposal was handed over at an earlier height
+	happyBias bool
+	sentV     map[[3]int]bool // (h, r, sender) prevote sent
+	sentC     map[[3]int]bool
+	timers    []Input
+	plan      []Input
+	planAt    [2]int
+	hist      []Input
+	fresh     uint64
 }
 
 func newWorld(cfg *Cfg, ep *epoch, r *lib.RNG) *world {
-	return &world{cfg: cfg, ep: ep, r: r, prop: map[[2]int]uint64{}, sentP: map[[2]int]bool{}, sentV: map[[3]int]bool{}, sentC: map[[3]int]bool{},
+	return &world{cfg: cfg, ep: ep, r: r, prop: map[[2]int]uint64{}, sentP: map[[2]int]bool{}, early: map[[2]int]bool{}, sentV: map[[3]int]bool{}, sentC: map[[3]int]bool{},
 		planAt: [2]int{-1, -1}}
 }
 
@@ -135,6 +137,14 @@ func (w *world) mkPlan() []Input {
 	val, have := w.prop[key]
 	prIdx := w.cfg.proposerIdx(h, r)
 	kind := lib.Pick(w.r, []string{"happy", "happy", "happy", "nil", "split", "late"})
+	if w.happyBias && !w.r.Chance(1, 8) {
+		kind = "happy"
+	}
+	if w.early[key] {
+		// the proposal of this round arrived while the node was at an earlier height and is not
+		// sent again: the (now obsolete, if the node kept the proposal) propose timer fires first
+		p = append(p, Input{K: "t", Step: 0, H: h, R: r})
+	}
 	if prIdx != w.cfg.Me && !w.sentP[key] && kind != "nil" {
 		vr := -1
 		if !have {
@@ -226,25 +236,30 @@ func (w *world) noise() Input {
 	case 0, 6: // future height — including enough precommits from different senders to form a quorum
 		// of the future height (the state machine then answers TriggerSync; the harness keeps that
 		// action from the driver, see smWrap.call)
-		pv := w.planned(h + 1)
+		// one, two or three heights ahead: the early-message buffer must keep what is more than one
+		// height early across the height changes in between (the log keeps it: pruning only removes
+		// heights up to the committed one)
+		hf := h + uint64(lib.Pick(w.r, []int{1, 1, 1, 2, 2, 3}))
+		pv := w.planned(hf)
 		switch w.r.Intn(4) {
-		case 0, 1:
+		case 0:
 			if w.r.Chance(1, 4) {
-				return w.vote("v", h+1, w.r.Intn(2), s, w.newValue(true), w.r.Chance(1, 2))
+				return w.vote("v", hf, w.r.Intn(2), s, w.newValue(true), w.r.Chance(1, 2))
 			}
-			return w.vote("v", h+1, 0, s, pv, false)
+			return w.vote("v", hf, 0, s, pv, false)
 		case 2:
 			if w.r.Chance(1, 3) {
-				return w.vote("c", h+1, 0, s, pv, false) // may complete a quorum of the future height
+				return w.vote("c", hf, 0, s, pv, false) // may complete a quorum of the future height
 			}
-			return w.vote("c", h+1, 0, oth[0], pv, false)
+			return w.vote("c", hf, 0, oth[0], pv, false)
 		}
-		pi := w.cfg.proposerIdx(h+1, 0)
-		if pi == w.cfg.Me || w.sentP[[2]int{int(h + 1), 0}] {
-			return w.vote("v", h+1, 0, s, pv, false)
+		pi := w.cfg.proposerIdx(hf, 0)
+		if pi == w.cfg.Me || w.sentP[[2]int{int(hf), 0}] {
+			return w.vote("v", hf, 0, s, pv, false)
 		}
-		w.sentP[[2]int{int(h + 1), 0}] = true
-		return Input{K: "p", H: h + 1, R: 0, Sender: pi, VR: -1, Val: pv}
+		w.sentP[[2]int{int(hf), 0}] = true
+		w.early[[2]int{int(hf), 0}] = true
+		return Input{K: "p", H: hf, R: 0, Sender: pi, VR: -1, Val: pv}
 	case 1: // future round
 		return w.vote(lib.Pick(w.r, []string{"v", "c"}), h, r+1+w.r.Intn(2), s, w.newValue(true), w.r.Bool())
 	case 2: // stale height
